@@ -481,7 +481,7 @@ pub(crate) unsafe fn server_create_tls_impl(
                 address,
                 handler_map.clone(),
                 tls_config,
-                rodbus::server::AddressFilter::Any,
+                filter.into(),
                 decode_level.into(),
             );
 
